@@ -61,6 +61,8 @@ def constTextsW : List WItem → List Bytes
   | [] => []
   | .item _ :: ws => constTextsW ws
   | .value _ v :: ws => constTexts v ++ constTextsW ws
+  | .named _ none v :: ws => constTexts v ++ constTextsW ws
+  | .named _ (some k) v :: ws => k :: (constTexts v ++ constTextsW ws)
 
 /-- what a load leaves behind: the values (const strings by the text the archive held), the reading
     dictionary afterwards, and the `const_str` each ConstString variable received, in load order -/
